@@ -87,6 +87,16 @@ def check_update_timestep(reg, src, prop):
 def install_call_stubs(ex, newton=True, faulting=False):
     def step_stub(ex_, st_, ctx, args, kwargs):
         selfref, ts = args[0], args[5]
+        if faulting == "value-error-once":
+            # a linear-algebra / ValueError inside the first attempt of a step is caught by __call__ and the step retried
+            from pyvc.values import ExcVal
+            ncalls = st_.ghost.get("n_step_calls", 0)
+            st_.ghost["n_step_calls"] = ncalls + 1
+            if ncalls == 0:
+                sr = st_.fork()
+                sr.ghost["caught_fault"] = True
+                return [(sr, Raised(ExcVal("ValueError", tag="stage-solve-fault"))), (st_, _step_ok(st_, selfref, ts))]
+            return _step_ok(st_, selfref, ts)
         if faulting:
             # the right-hand side may fail inside any step with an error that is not a linear-algebra / value error
             sr = st_.fork()
@@ -261,4 +271,30 @@ def check_rk_call_faults(reg, src, prop, implicit, adaptive):
                        isinstance(v, Raised) and v.exc.cls == "RuntimeError", backend="symbolic-exec",
                        detail="a RuntimeError raised inside step() escapes __call__ (outcome: %s)" % ("raised " + v.exc.cls if isinstance(v, Raised) else "returned normally"))
     reg.ground("%s/%s/fault-paths-explored" % (prop, ctx.tag), "lemma", "__call__", n >= 1, detail="%d paths with an injected fault" % n)
+    return fi
+
+
+def check_rk_call_caught_fault(reg, src, prop):
+    """explicit fixed-step method: a ValueError / linear-algebra error inside the first attempt is caught and the step is retried
+    with the *same* step size: the returned dTime and new_dt still equal the requested timestep."""
+    ex = Executor(src, reg, prop=prop)
+    install_call_stubs(ex, faulting="value-error-once")
+    fi = src.func(FT, "RungeKuttaIntegrator.__call__")
+    st = State()
+    selfobj = rk_self(st, False, False)
+    ctx = Ctx(fi, None, fi.cls, tag="RungeKuttaIntegrator.__call__[caught-fault,explicit-fixed]")
+    h = z3.Real("h0")
+    st.assume(h != 0)
+    consts = st.new_obj("dict", "dict", items={})
+    n = 0
+    for k, (s, v) in enumerate(ex.call_function(fi, [selfobj, UFunc("rhs", "real"), z3.Real("t"), z3.Real("y"), consts, h], {}, st, ctx)):
+        if not s.ghost.get("caught_fault"):
+            continue
+        n += 1
+        if isinstance(v, Raised):
+            reg.ground("%s/%s/retry-succeeds#path%d" % (prop, ctx.tag, k), "post", "__call__", False, backend="symbolic-exec", detail="raised %r" % (v.exc,))
+            continue
+        new_dt, (dT, dS) = v
+        ex.prove(s, ctx, z3.And(dT == h, new_dt == h), "post", "fixed-step-exact-after-caught-fault#path%d" % k)
+    reg.ground("%s/%s/caught-fault-paths-explored" % (prop, ctx.tag), "lemma", "__call__", n >= 1, detail="%d paths" % n)
     return fi
